@@ -292,8 +292,11 @@ def run(repo: Repo, rep: Report, tier: str) -> None:
     rep.rule("fragments-complete", "the data-set bytes are cut into consecutive fragments that together are the whole data set and are re-joined in order (C15's fragmentation rules)")
     delegate(repo, rep, tier, "C15", ("overhead", "overhead-count", "order-flags", "reader-bits", "reader-complete", "one-pdv"), "fragments-complete", "for some data-set length and peer maximum the bytes that arrive are not the bytes that were sent (a tail that is never sent, a fragment read out of place)")
 
+    rep.rule("bytes-complete", "what AssociationSocket.recv returns is exactly the bytes the socket delivered (C03's recv-exact): a broken connection gives a short PDU, never padding or stale bytes")
+    delegate(repo, rep, tier, "C03", ("recv-exact",), "bytes-complete", "a PDU cut short by a broken connection is completed to its announced length with zeros or with bytes of an earlier PDU: the length check passes and the EVT_C_STORE handler is given a data set of the right size with a wrong tail")
     check_store_subop_dataset_intact(repo, rep)
     check_chunk_file_flushed(repo, rep)
+    check_receive_mode_decided_once(repo, rep)
     from ..lints import no_memoised_io
     rep.rule("no-stale-meta", "no function whose result depends on a file or on configuration is memoised")
     rep.floor("functions scanned for memoising decorators", no_memoised_io(repo, rep, "no-stale-meta"), 500)
@@ -373,3 +376,32 @@ def check_chunk_file_flushed(repo: Repo, rep: Report) -> None:
         rep.fail("chunk-flushed", f"{mname}.{q}", t.ast, "decode_msg no longer flushes the chunk file after each fragment and this EVT_C_STORE trigger site does not flush it either: its handler reads a truncated (or empty) file through Event.dataset / dataset_path / encoded_dataset while the status says Success", mod=repo.mod(mname), node=t.ast)
     if not bad:
         rep.ok("chunk-flushed", "every EVT_C_STORE trigger site flushes the request's chunk file first")
+
+
+def check_receive_mode_decided_once(repo: Repo, rep: Report, rule: str = "mode-decided-once") -> None:
+    """Whether a received C-STORE data set is kept in memory or written to a file is decided once, by the
+    reader, when the command set arrives (it tests the configuration flag and records the outcome on the
+    request as `_dataset_path`). Everything downstream - Event.dataset, Event.encoded_dataset(), the storage
+    SCP - must follow what the *request* says: a second read of the global flag at handler time can disagree
+    with the first (another thread toggled it, a queued handler, a per-peer policy) and the handler is given
+    an empty data set although the file holds all of it."""
+    rep.rule(rule, "_config.STORE_RECV_CHUNKED_DATASET is read only where the data set is received; consumers follow the request's own _dataset_path")
+    from .c27 import pkg_modules
+
+    n = 0
+    readers = []
+    for short, m in pkg_modules(repo):
+        if short == "_config":
+            continue
+        imported = any(isinstance(i, ast.ImportFrom) and (i.module or "").endswith("_config") and any(a.name == "STORE_RECV_CHUNKED_DATASET" for a in i.names) for i in ast.walk(m.tree))
+        for x in ast.walk(m.tree):
+            hit = isinstance(x, ast.Attribute) and x.attr == "STORE_RECV_CHUNKED_DATASET" and isinstance(x.ctx, ast.Load)
+            hit = hit or (imported and isinstance(x, ast.Name) and x.id == "STORE_RECV_CHUNKED_DATASET" and isinstance(x.ctx, ast.Load))
+            hit = hit or (isinstance(x, ast.Call) and dotted(x.func) == "getattr" and len(x.args) >= 2 and isinstance(x.args[1], ast.Constant) and x.args[1].value == "STORE_RECV_CHUNKED_DATASET")
+            if hit:
+                n += 1
+                readers.append((short, m, x))
+    for short, m, x in readers:
+        q = f"{short}.{qualname(x)}"
+        rep.check(q == "dimse_messages.DIMSEMessage.decode_msg", rule, q, enclosing(x, (ast.stmt,)) or x, "the receive mode is read from the global configuration a second time, outside the reader that decided where this request's data set went: when the flag has changed in between the consumer looks in the wrong place - the handler gets an empty Dataset / b'' (or the SCP tries to read a file that was never written) while the bytes that arrived are elsewhere", mod=m, node=x)
+    rep.floor("reads of STORE_RECV_CHUNKED_DATASET", n, 1)
